@@ -1574,6 +1574,47 @@ theorem walk_Ledger_chain (e : Env) (s : St) (lh : Int) (dest : Nat) (prune : Bo
   rw [walk_reaches_any e s lh dest prune hpl hid hok, h2, blockTxs_append]
   exact c2 hok
 
+/-- the initial state has the empty log, when block id 0 — the pointer of the initial state — is not a registered block
+(`e.block 0` is then the default block: no parent, no transactions) -/
+theorem ChainLog_genesis (e : Env) (h0 : (e.block 0).pre = none) (h1 : (e.block 0).txs = []) : ChainLog e {} [] := by
+  unfold ChainLog
+  show [] = blockTxs e (ancestors e (e.blocks.length + 1) 0).reverse
+  rw [ancestors_succ_none e _ 0 h0]
+  simp [blockTxs, h1]
+
+/-- admission to the pool moves neither the pointer nor the log -/
+theorem doTx_ChainLog (e : Env) (s : St) (lh : Int) (i : Nat) (C : List Nat) (h : ChainLog e s C) :
+    ChainLog e (doTx e s lh i).1 C := by
+  unfold ChainLog at h ⊢
+  rw [doTx_pointer]; exact h
+
+/-- a block on top of the pointer extends the path by itself -/
+theorem ChainLog_child (e : Env) (s s' : St) (b : Block) (C : List Nat) (hpl : ParentLower e) (hb : e.block b.id = b)
+    (hpre : b.pre = some s.pointer) (hptr : s'.pointer = b.id) (h : ChainLog e s C) : ChainLog e s' (C ++ b.txs) := by
+  unfold ChainLog at h ⊢
+  rw [hptr, ancestors_child e hpl b.id s.pointer (by rw [hb]; exact hpre), List.reverse_cons, blockTxs_snoc, hb, ← h]
+
+/-- **`play` keeps the chain-shape invariant**: an accepted block (known to the environment under its id) has the pointer
+as its parent and becomes the pointer, its transactions join the log; a refused block changes nothing -/
+theorem play_ChainLog (e : Env) (s : St) (lh : Int) (b : Block) (C : List Nat) (hpl : ParentLower e)
+    (hb : e.block b.id = b) (h : ChainLog e s C) :
+    ChainLog e (play e s lh b).1 (if (play e s lh b).2 = .ok then C ++ b.txs else C) := by
+  by_cases hok : (play e s lh b).2 = .ok
+  · rw [if_pos hok]
+    obtain ⟨hpre, hptr⟩ := play_ok_pointer e s lh b hok
+    exact ChainLog_child e s _ b C hpl hb hpre hptr h
+  · rw [if_neg hok, XV.C05.play_fail_noop e s lh b hok]; exact h
+
+/-- **`playForMiner` keeps the chain-shape invariant** -/
+theorem playForMiner_ChainLog (e : Env) (s : St) (lh : Int) (b : Block) (C : List Nat) (hpl : ParentLower e)
+    (hb : e.block b.id = b) (h : ChainLog e s C) :
+    ChainLog e (playForMiner e s lh b).1 (if (playForMiner e s lh b).2 = .ok then C ++ b.txs else C) := by
+  by_cases hok : (playForMiner e s lh b).2 = .ok
+  · rw [if_pos hok]
+    obtain ⟨hpre, hptr⟩ := playForMiner_ok_pointer e s lh b hok
+    exact ChainLog_child e s _ b C hpl hb hpre hptr h
+  · rw [if_neg hok, XV.C05.playForMiner_fail_noop e s lh b hok]; exact h
+
 -- non-vacuity: the history of the `Ledger` example of C02 in a tree with heights (so that `ParentLower` holds):
 --   block 10 = [100 (genesis coinbase 16)] on the unregistered block 0; submissions 1 and 2 (child of 1);
 --   block 11 = [9 (award), 1] confirms 1; then a walk to the sibling block 12 = [8 (award), 3], 3 spends the input of 1.
@@ -1608,6 +1649,19 @@ private theorem clS4_Ledger : Ledger clEnv clS4 [100, 9, 1] := by
   rw [if_pos (by decide)] at this
   exact this
 
+-- genesis, `doTx`, `play`: the hypotheses hold and the steps are accepted
+example : (clEnv.block 0).pre = none ∧ (clEnv.block 0).txs = [] ∧ ChainLog clEnv {} [] ∧
+    clEnv.block (clEnv.block 10).id = clEnv.block 10 ∧ (play clEnv {} 0 (clEnv.block 10)).2 = .ok ∧
+    ChainLog clEnv clS1 [100] ∧ (doTx clEnv clS1 0 1).2 = .ok ∧ ChainLog clEnv clS3 [100] ∧ clS3.pool = [1, 2] ∧
+    clEnv.block (clEnv.block 11).id = clEnv.block 11 ∧ (play clEnv clS3 0 (clEnv.block 11)).2 = .ok ∧
+    ChainLog clEnv clS4 [100, 9, 1] ∧ clS4.pointer = 11 ∧ clS4.pool = [2] ∧
+    (playForMiner clEnv clS3 0 (clEnv.block 11)).2 = .ok ∧
+    ChainLog clEnv (playForMiner clEnv clS3 0 (clEnv.block 11)).1 [100, 9, 1] := by decide
+example : ChainLog clEnv clS4 ([100] ++ (clEnv.block 11).txs) := by
+  have := play_ChainLog clEnv clS3 0 (clEnv.block 11) [100] clEnv_lower (by decide)
+    (doTx_ChainLog clEnv _ 0 2 [100] (doTx_ChainLog clEnv clS1 0 1 [100] (by decide)))
+  rw [if_pos (by decide)] at this
+  exact this
 -- the walk from 11 (pool [2]) to the sibling 12: every hypothesis of `walk_Ledger_chain` holds, the walk succeeds, and
 -- the log it re-establishes is that of the path 0, 10, 12
 example : ParentLower clEnv ∧ Ledger clEnv clS4 [100, 9, 1] ∧ ChainLog clEnv clS4 [100, 9, 1] ∧
